@@ -355,6 +355,10 @@ func (rn *runner) config(c caseSpec, pkg string) string {
 }
 
 // rootFileName: the file holding `type Resolver struct{}` in the follow-schema layout.
+// accessorRE: the generated accessor of a resolver group (`func (r *Resolver) Todo() TodoResolver`);
+// any other method on the root resolver type is user code.
+var accessorRE = regexp.MustCompile(`^func \(\w+ \*?\w+\) \w+\(\) [\w.]*Resolver\b`)
+
 func rootFileName(c caseSpec) string {
 	if c.Layout == "follow" && c.Idx%3 == 1 {
 		return "root.go"
@@ -948,7 +952,7 @@ func (rn *runner) step(st *caseState, si int, prev, next *schema, ops []evoOp) {
 			switch {
 			case d.Kind == "method":
 				kind = "removed_or_renamed_resolver"
-			case d.Kind == "othermethod" && strings.HasPrefix(d.Name, "Resolver."), d.Kind == "type" && isResolverStruct(d.Name):
+			case d.Kind == "othermethod" && strings.HasPrefix(d.Name, "Resolver.") && accessorRE.MatchString(d.Text), d.Kind == "type" && isResolverStruct(d.Name):
 				kind = "scaffold"
 			}
 			if kind != "scaffold" {
